@@ -107,7 +107,7 @@ def run_design(ctx, jobs):
         r, violated = run_tlc("GThread_" + label, cfg, workers)
         return label, kw, expect, r, violated
     out = []
-    with ThreadPoolExecutor(max_workers=len(jobs)) as ex:
+    with ThreadPoolExecutor(max_workers=max(1, len(jobs))) as ex:
         for label, kw, expect, r, violated in ex.map(one, jobs):
             out.append((label, kw, expect, r, violated))
     return out
@@ -154,7 +154,7 @@ def scenarios():
         # the connection count reaches worker_connections with an empty pool, then a request
         # arrives on an idle connection
         fill = [["loop", [["connect", c] for c in range(1, w + 1)]]] + [["loop", []] for _ in range(w)]
-        out.append(("gate-full-then-request", p, fill + [["loop", [["send", 1, "k"]]]]))
+        out.append(("gate-full-then-request", p, fill + [["loop", [["send", 1, "k"]]]] + [["loop", []]] * 5))
         # ... with a handler still busy on another connection (needs a second thread)
         if t >= 2 and w >= 2:
             out.append(("gate-full-pool-busy", p,
@@ -313,13 +313,22 @@ def judge(ctx, runs, name="GThreadTrace_C13"):
     for r, (v, step) in zip(runs, verdicts):
         if v == "ok":
             continue
-        sig = "C13/%s/%s" % (v, scenario_class(r, v, step))
+        cls = scenario_class(r, v, step)
+        sig = "C13/%s/%s" % (v, cls)
         bad[sig] += 1
-        if sig not in best or len(r["decisions"]) < len(best[sig][0]["decisions"]):
+        if cls.startswith("gate-full"):
+            # one root cause (the capacity gate stops all polling), three bounded-response symptoms
+            # (request not served / departure not noticed / count stuck) x pool empty or busy:
+            # one signature; the observed variants are counted in the evidence
+            sig = GATE_SIGNATURE
+            r = dict(r, variant="%s/%s" % (v, cls))
+        if sig not in best or rank(r, v) < rank(best[sig][0], best[sig][1]):
             best[sig] = (r, v, step)
     for sig, (r, v, step) in sorted(best.items()):
         p = r["params"]
         cls = sig.split("/", 2)[2]
+        if "variant" in r:
+            cls = r["variant"].split("/")[1]
         what = ("%s fails at event %d (%s) of a %s run with threads=%d worker_connections=%d keepalive=%d: %s"
                 % (v, step, r["ev"][step - 1]["e"], r.get("source", "?"), p["threads"], p["wc"], p["ka"],
                    explain(v, cls)))
@@ -328,6 +337,17 @@ def judge(ctx, runs, name="GThreadTrace_C13"):
                                   "events": [[e["e"], e["c"], e["x"], e["nr"], e["now"]] for e in r["ev"][:step]]})
     ctx.coverage["failing_runs_by_signature"] = dict(bad)
     return verdicts
+
+
+GATE_SIGNATURE = "C13/ServedIfThreadFree/gate-full-pool-empty"
+
+
+def rank(r, v):
+    """prefer, as the representative of a signature, the literal clause, then short schedules"""
+    return (0 if r.get("variant", GATE_SIGNATURE[4:]) == GATE_SIGNATURE[4:] else 1,
+            0 if r.get("source") == "scenario:gate-full-then-request" and r["params"]["wc"] == 2
+            and r["params"]["threads"] == 2 and r["params"]["ka"] == 2 else 1,
+            0 if str(r.get("source", "")).startswith("scenario") else 1, len(r["decisions"]))
 
 
 def explain(v, cls):
@@ -352,6 +372,8 @@ def readable_schedule(r):
 def c13(ctx):
     rng = ctx.rng
     jobs = design_jobs(ctx)
+    if os.environ.get("VERIF_C13_NO_MODEL"):      # development aid (mutation sweeps): skip (D)
+        jobs = []
     pool = ThreadPoolExecutor(max_workers=3)
     fut_design = pool.submit(run_design, ctx, jobs)
     # spec -> code behaviours, generated while the design runs
@@ -373,7 +395,8 @@ def c13(ctx):
     for i in range(nrand):
         t, w, k = PARAMS[i % len(PARAMS)]
         budget = rng.choice([30, 60, 90, 140])
-        r = drv.run_random(params(t, w, k), random.Random(rng.getrandbits(48)), budget=budget,
+        cap = (w - 1) if (w >= 2 and i % 5 < 3) else None      # 60 %: stay below the connection limit
+        r = drv.run_random(params(t, w, k), random.Random(rng.getrandbits(48)), budget=budget, cap=cap,
                            p_step=rng.choice([0.3, 0.45, 0.6]),
                            weights={"tick": rng.choice([0.5, 1, 3])})
         r["source"] = "random"
